@@ -6,7 +6,9 @@ From GF Require Export Step.
 
 (* s_delta: the frames of the pool that differ from the previous observation (position,
    new content); a position one past the end is a new frame *)
-Record stepobs := { s_op : op; s_out : out val; s_delta : list (nat * frame); s_nrows : list Z }.
+(* s_shared: the harness found, on the implementation's heap after this step, two column slots of live frames whose
+   backing arrays overlap (the separation invariant of Heap.v, observed directly) *)
+Record stepobs := { s_op : op; s_out : out val; s_delta : list (nat * frame); s_nrows : list Z; s_shared : bool }.
 Record hist := { h_or : oracles; h_pool : pool; h_steps : list stepobs }.
 Definition apply_delta (pre : pool) (d : list (nat * frame)) : pool :=
   fold_left (fun p kf => if Nat.ltb (fst kf) (length p) then set_nth p (fst kf) (snd kf) else p ++ [snd kf]) d pre.
@@ -231,7 +233,9 @@ Definition check_step (O : oracles) (pre : pool) (s : stepobs) : list nat :=
       | _, _, _ => []
       end)
   (* C20: a request the model rejects was accepted (an invalid request not signalled as an error) *)
-  ++ (match mo, io with Err, Ok _ => [32%nat] | _, _ => [] end).
+  ++ (match mo, io with Err, Ok _ => [32%nat] | _, _ => [] end)
+  (* C02: the separation invariant itself, as observed on the implementation's heap *)
+  ++ (if s_shared s then [21%nat] else []).
 
 (* first failing step of a history: (step index, codes) *)
 Fixpoint check_steps (O : oracles) (pre : pool) (ss : list stepobs) (k : nat) : option (nat * list nat) :=
